@@ -1,7 +1,7 @@
 (** C07 — Cache view reflects its own pending operations (read-your-writes). Statements only. *)
 From Coq Require Import Permutation.
 From GC Require Import Common.Base Model.Paths Model.Fs Model.Views Model.Cache Model.ViewsCache Model.CacheRef
-  Proofs.Fs Proofs.Clean Proofs.Views Proofs.Cache Proofs.CacheFrame Proofs.C07More.
+  Model.CacheList Proofs.Fs Proofs.Clean Proofs.Views Proofs.Cache Proofs.CacheFrame Proofs.C07More Proofs.CacheList.
 
 (** The tree seen through the cache is a well-formed plain tree whose lookup is: the buffer
     first, otherwise the remote unless the path or an ancestor was removed. *)
@@ -242,4 +242,49 @@ Example C07_ex_copy_into_ancestor :
   snd (cache_step (new_cache r) (COp (OCopy [97;47;98] [97]))) = RUnit /\
   vlookup c [[97];[98];[99];[122]] = Some (F [90]) /\ vlookup c [[97];[99];[107]] = Some (F [75]) /\
   vlookup c [[97];[99];[122]] = None.
+Proof. vm_compute. repeat split. Qed.
+
+(** * What a listing ENTRY says (Model/CacheList.v: the listing with, for every entry, IsDir or
+    the Size of the file)
+
+    Every entry of a listing through the cache describes the node the view holds under that name:
+    a file overwritten through the cache is listed with the size of its PENDING content (the entry
+    of a name present in the buffer and on the remote is the buffer's), a created file with the
+    size written, a node replaced by the other kind as what it is now.  Each name once. *)
+Theorem C07_listing_describes : forall c p l, Inv c -> v_read_dir_info c p = Some l ->
+  NoDup (map fst l) /\
+  forall n i, In (n, i) l <-> exists e, vlookup c (p ++ [n]) = Some e /\ i = info_of e.
+Proof. exact v_read_dir_info_agrees. Qed.
+Print Assumptions C07_listing_describes.
+
+(** It is the listing of C07_listing / C07_listing_total with the sizes added: forgetting them
+    gives exactly [v_read_dir] (so it succeeds on the visible directories and nowhere else). *)
+Theorem C07_listing_describes_refines : forall c p,
+  option_map (map forget_info) (v_read_dir_info c p) = v_read_dir c p.
+Proof. exact v_read_dir_info_forget. Qed.
+Print Assumptions C07_listing_describes_refines.
+
+(** list, stat and read agree: for every raw spelling [s] of the path of a listed entry, Lstat
+    through the cache answers the kind and size the entry says, IsDir answers true for an entry
+    listed as a directory, and ReadFile returns exactly as many bytes as a file entry says. *)
+Theorem C07_listed_entry_is_stat_and_read : forall c p l n i s, Inv c ->
+  v_read_dir_info c p = Some l -> In (n, i) l -> cnorm s = Some (p ++ [n]) ->
+  snd (cache_step c (COp (OLstat s))) = stat_of_info i /\
+  match i with
+  | None => snd (cache_step c (COp (OIsDir s))) = RBool true
+  | Some sz => exists d, snd (cache_step c (COp (OReadFile s))) = RData d /\ N.of_nat (length d) = sz
+  end.
+Proof. exact listed_entry_is_stat_and_read. Qed.
+Print Assumptions C07_listed_entry_is_stat_and_read.
+
+(* remote a/x = "1", b = "2"; pending: a/x overwritten with 3 bytes, b removed and re-created as a
+   directory, a/n created with 2 bytes: the listing of a describes x with 3 bytes (not 1), the root
+   lists b as a directory *)
+Example C07_ex_listing_describes :
+  let c := run_cache (new_cache ex_r)
+             [COp (OWriteFile [97;47;120] [55;56;57]); COp (ORemove [98]); COp (OMkdirAll [98]);
+              COp (OWriteFile [97;47;110] [48;48])] in
+  v_read_dir_info c [[97]] = Some [([120], Some 3%N); ([110], Some 2%N)] /\
+  v_read_dir_info c [] = Some [([97], None); ([98], None)] /\
+  v_read_dir_info (new_cache ex_r) [[97]] = Some [([120], Some 1%N)].
 Proof. vm_compute. repeat split. Qed.
